@@ -3,8 +3,8 @@
 EXTENDS LogStmt
 
 HeadsReal == {"bare", "qualified"}
-HeadsAll == {"bare", "qualified", "unconfigured", "prefix", "suffix", "othermod", "submod", "shortmod", "upper", "crateprefixed", "noliteral", "noargs",
-             "linecomment", "blockcomment", "doccomment", "instring"}
+HeadsAll == {"bare", "qualified", "unconfigured", "prefix", "suffix", "othermod", "modplus1", "modminus1", "submod", "shortmod", "upper", "crateprefixed", "noliteral", "noargs",
+             "linecomment", "blockcomment", "doccomment", "instring", "instringopen", "rawstring"}
 TargetsAll == {"none", "plain", "comma", "escquote"}
 TargetsTwo == {"none", "plain"}
 TargetsCompile == TargetsAll \cup ExprTargets
@@ -16,7 +16,7 @@ KvRefFew == {"ref=7", "ref=x", "ref=over"}
 MsgAll == {"plain", "leadspace", "slashes", "blockcm", "placeholders", "escquote", "unicode", "reflater", "empty",
            "validref", "validref0", "validrefmax", "bracketnoref", "unicodefirst"}
 MsgFew == {"plain", "validref", "leadspace", "unicodefirst"}
-LayoutsAll == {"tight", "space", "newline", "crlf", "blockcomment", "linecomment", "tabs"}
+LayoutsAll == {"tight", "space", "newline", "crlf", "blockcomment", "linecomment", "tabs", "formfeed", "unicodews"}
 ContextsAll == {"linestart", "indent", "brace", "arrow", "return", "letunderscore", "afterstring", "aftermultibyte", "break", "tabindent", "afterstmt", "afterurl"}
 DirsAll == {"none", "ignore", "nokvp"}
 BothModes == {"structured", "unstructured"}
